@@ -48,7 +48,7 @@ def check_accepted(case, rec):
     for ev in t.mevents:
         if ev.value is not None and ev.value < 0:
             rec.count("negative_values")
-        if ev.value is not None and len(ev.chunk) == 8:
+        if ev.value is not None and isinstance(ev.chunk, bytes) and len(ev.chunk) == 8:
             rec.count("64bit_fields")
     for rule, mech, msg in oracles.chunks_conservation(case, None, t):
         rec.violation(rule, mech, f"{case.short()}\n{msg}", case.replay(mode="strict"))
